@@ -14,7 +14,7 @@ from cpython.datetime cimport datetime, timedelta
 import cython
 
 
-cpdef int project_date_to_idx(
+cpdef long long project_date_to_idx(
     object date,
     object start,
     int granularity
@@ -47,7 +47,7 @@ cpdef int project_date_to_idx(
 
 
 cpdef object project_idx_to_date(
-    int idx,
+    long long idx,
     object start,
     int granularity
 ):
